@@ -2,6 +2,7 @@ package checks
 
 import (
 	"fmt"
+	"strings"
 
 	"github.com/antchfx/xpath"
 
@@ -16,6 +17,11 @@ import (
 // inconclusive for the value properties - it is skipped and counted, never
 // reported; termination is C15's business, decided there by an operation budget.
 var cappedFailure = harness.Failf("result fits the drain cap", fmt.Sprintf("more than %d results", harness.MaxResults), "inconclusive: result sequence larger than the harness cap")
+
+// engineBudget bounds the navigator operations of one engine call in the value
+// properties (nested predicates over '//' on large documents cost n^k in the engine
+// too); a case that exceeds it is inconclusive, like a capped one.
+const engineBudget = 30000000
 
 // inconclusive reports (and counts) a capped case.
 func inconclusive(u *harness.Unit, f *harness.Failure) bool {
@@ -51,7 +57,10 @@ func engineSelect(l *harness.Live) ([]int, *harness.Failure) {
 }
 
 func selectWith(e *xpath.Expr, l *harness.Live) ([]int, *harness.Failure) {
-	ids, capped, pan := harness.Select(e, l.Doc, l.Flavour, l.Ctx, nil)
+	ids, capped, pan := harness.Select(e, l.Doc, l.Flavour, l.Ctx, &xdoc.Budget{Limit: engineBudget})
+	if pan != nil && pan.Budget {
+		return nil, cappedFailure
+	}
 	if pan != nil {
 		return nil, harness.Failf("Select completes", pan.String(), "Select panicked")
 	}
@@ -71,7 +80,10 @@ func engineEval(l *harness.Live) (harness.Value, *harness.Failure) {
 }
 
 func evalWith(e *xpath.Expr, l *harness.Live) (harness.Value, *harness.Failure) {
-	v, capped, pan := harness.Evaluate(e, l.Doc, l.Flavour, l.Ctx, nil)
+	v, capped, pan := harness.Evaluate(e, l.Doc, l.Flavour, l.Ctx, &xdoc.Budget{Limit: engineBudget})
+	if pan != nil && pan.Budget {
+		return v, cappedFailure
+	}
 	if pan != nil {
 		return v, harness.Failf("Evaluate completes", pan.String(), "Evaluate panicked")
 	}
@@ -185,4 +197,15 @@ func skipKnown(u *harness.Unit, e xast.Expr) bool {
 		return true
 	}
 	return false
+}
+
+// refFailure turns an error of the reference evaluator into the right outcome:
+// an exhausted work budget is inconclusive (skipped and counted), anything else
+// means the generator left the fragment the reference decides - a harness bug
+// that must be loud.
+func refFailure(err error) *harness.Failure {
+	if od, ok := err.(xref.OutOfDomain); ok && strings.Contains(od.Msg, "work budget") {
+		return cappedFailure
+	}
+	return harness.Failf("reference evaluates", err.Error(), "generator produced an expression outside the reference fragment")
 }
